@@ -3,3 +3,5 @@
 package fp
 
 func vAssertShift(before, after *decimal, k int, left bool, id string)
+
+func vAssertSetValue(lit []byte, d *decimal, id string)
